@@ -116,8 +116,31 @@ def checkOverlap (a b : Row) (maxDifference : Int) : Bool :=
   a.rev = b.rev && a.referenceId = b.referenceId &&
     decide (iabs (max a.rStart b.rStart - min a.rEnd b.rEnd) ≤ maxDifference)
 
-/-- `AlignmentResultRow.resolve` (alignment_results.py:252-271): only `segments[0]` of each row -/
-def joinRows (P : Params) (a b : Row) : Except Err Row :=
+/-- `__isOneToOneAndCollinear` (added by the `fix:` commit): at least one pair, reference site
+    ids strictly ascending in listed order, query site ids strictly monotone in the direction of
+    the strand -/
+def strictlyAscending : List Int → Bool
+  | []           => true
+  | [_]          => true
+  | a :: b :: t  => decide (a < b) && strictlyAscending (b :: t)
+
+def Row.isOneToOneAndCollinear (r : Row) : Bool :=
+  let rs := r.pairs.map (fun p => p.r.site)
+  let qs := r.pairs.map (fun p => if r.rev then - p.q.site else p.q.site)
+  !r.pairs.isEmpty && strictlyAscending rs && strictlyAscending qs
+
+/-- `AlignmentResultRow.resolve` (alignment_results.py:252-280): only `segments[0]` of each row
+    enters the join; `none` when the joined row is not a valid matching (the `fix:` commit) -/
+def joinRows (P : Params) (a b : Row) : Except Err (Option Row) :=
+  match a.pairs, b.pairs, a.segments, b.segments with
+  | pa :: _, pb :: _, sa :: _, sb :: _ => do
+    let (l, r) ← if pa.r.pos < pb.r.pos then resolvePair P sa sb else resolvePair P sb sa
+    let j := Row.create P [l, r] a.queryId a.referenceId a.queryLength a.referenceLength a.rev
+    return if j.isOneToOneAndCollinear then some j else none
+  | _, _, _, _ => .error .indexError
+
+/-- the join as it was before the repair: always returns the joined row (F7) -/
+def joinRowsUnchecked (P : Params) (a b : Row) : Except Err Row :=
   match a.pairs, b.pairs, a.segments, b.segments with
   | pa :: _, pb :: _, sa :: _, sb :: _ => do
     let (l, r) ← if pa.r.pos < pb.r.pos then resolvePair P sa sb else resolvePair P sb sa
@@ -134,8 +157,9 @@ def resolveGroups (P : Params) (maxDifference : Int) : List (List Row) → Excep
     | [x] => return (j, x :: s)
     | x :: y :: rest =>
       if checkOverlap x y maxDifference then
-        let r ← joinRows P x y
-        return (r :: j, s)
+        match ← joinRows P x y with
+        | some r => return (r :: j, s)
+        | none   => return (j, x :: y :: rest ++ s)
       else return (j, x :: y :: rest ++ s)
 
 /-- `AlignmentResults.resolve` (lines 44-64): (joined, separate) -/
